@@ -25,12 +25,15 @@ Proof. intros A B. lia. Qed.
 
 Lemma parse_option_progress prev f a l s : progress prev l (parse_option f a l s).
 Proof.
-  unfold parse_option. pose proof (nextvis_rd f l s) as X. destruct (nextvis f l s) as [[c r] s1].
+  unfold parse_option. set (named := araw a && negb (valid s =? 0) && (ostart f =? 0)).
+  assert (X : let '(c, r, s1) := (if named then getchar l s else nextvis f l s) in rd l s c r s1)
+    by (destruct named; [apply getchar_rd|apply nextvis_rd]).
+  destruct (if named then getchar l s else nextvis f l s) as [[c r] s1].
   destruct (c <? 0) eqn:CN.
   - destruct (negb (c =? -2)); [apply progress_stop; codes; lia|].
     apply progress_stop. destruct (pelems _); codes; lia.
   - apply Z.ltb_ge in CN. destruct X as [_ C _ _ _ _]. destruct (C CN) as [_ L].
-    destruct (_ && _ && _); [apply progress_stop; codes; lia|].
+    destruct (negb (ostart f =? 0) && negb (c =? ostart f) && negb (valid s1 =? 0)); [apply progress_stop; codes; lia|].
     eapply progress_after; [exact L|apply option_loop_el].
 Qed.
 
